@@ -13,7 +13,7 @@ import (
 func init() {
 	register("C13", &propDef{
 		Title: "The bundle is a function of its inputs, not of order or scheduling",
-		Rules: []func(*Checker){ruleC13Maps, ruleC13Locks, ruleC13Atomic, ruleC13Names, ruleChecksum("C13.checksum")},
+		Rules: []func(*Checker){ruleC13Maps, ruleC13Locks, ruleC13Atomic, ruleC13Names, ruleChecksum("C13.checksum"), aliasRule(ruleC08Meta, "C08.meta", "C13.meta", 1)},
 		NotDecided: []string{
 			"equality of bundles across permutations of Add calls (run-time)",
 			"scheduler behaviour beyond lock discipline; totality of sort comparators",
@@ -760,6 +760,10 @@ func ruleC14Memo(c *Checker) {
 			}
 		}
 		c.check(share, R, name, m+" key matches subject", pos, "the lookup key and the call's arguments derive from the same value", "the memo key is unrelated to what is being fetched/queried")
+		// every component of the key must be part of what the call is given: an extra
+		// component makes the same work look new (done twice via different routes)
+		extra := keyExtraFields(p, lk.Index, call)
+		c.check(len(extra) == 0, R, name, m+" key has no component foreign to the call", pos, "every field of the key flows into the call's receiver or arguments", "the memo key carries "+strings.Join(extra, ", ")+", which the call does not depend on: the same work reached by different routes gets different keys and is repeated")
 		// (iii) store on every path
 		isStore := func(in ssa.Instruction) bool {
 			mu, ok := in.(*ssa.MapUpdate)
@@ -1253,4 +1257,83 @@ func isLoopHeaderOf(h *ssa.BasicBlock, body map[*ssa.BasicBlock]bool) bool {
 		}
 	}
 	return true
+}
+
+// locSet: the (cell, field) locations read in the backward slice of v.
+func locSet(p *Prog, v ssa.Value) map[string]bool {
+	out := map[string]bool{}
+	for x := range p.backSliceOpt(v, 0, true) {
+		if fa, ok := x.(*ssa.FieldAddr); ok {
+			out[fmt.Sprintf("%p.%d", rootCell(canon(fa.X)), fa.Field)] = true
+		}
+		if f, ok := x.(*ssa.Field); ok {
+			out[fmt.Sprintf("%p.%d", canon(f.X), f.Field)] = true
+		}
+		if prm, ok := x.(*ssa.Parameter); ok && !isTrivialShared(prm) {
+			out[fmt.Sprintf("%p", prm)] = true
+		}
+		if ld, ok := x.(*ssa.UnOp); ok && ld.Op == token.MUL {
+			if al, ok := rootCell(ld.X).(*ssa.Alloc); ok && !isTrivialShared(al) {
+				// the whole cell is read (e.g. a method called on the struct value)
+				if _, isStruct := ld.Type().Underlying().(*types.Struct); isStruct {
+					out[fmt.Sprintf("%p.*", ssa.Value(al))] = true
+				}
+			}
+		}
+		if cl, ok := x.(*ssa.Call); ok && !cl.Call.IsInvoke() {
+			out[fmt.Sprintf("%p", cl)] = true
+		}
+	}
+	return out
+}
+
+// keyExtraFields: components of a struct-valued memo key that do not feed the
+// memoised call.
+func keyExtraFields(p *Prog, key ssa.Value, call *ssa.Call) []string {
+	st, ok := key.Type().Underlying().(*types.Struct)
+	if !ok {
+		return nil
+	}
+	callLocs := map[string]bool{}
+	for _, a := range append([]ssa.Value{call.Call.Value}, call.Call.Args...) {
+		for k := range locSet(p, a) {
+			callLocs[k] = true
+		}
+	}
+	ld, ok := key.(*ssa.UnOp)
+	if !ok {
+		return nil
+	}
+	al, ok := rootCell(ld.X).(*ssa.Alloc)
+	if !ok {
+		return nil
+	}
+	var extra []string
+	whole := cellWrites(al)
+	for i := 0; i < st.NumFields(); i++ {
+		fw := fieldWrites(al, i)
+		switch {
+		case len(fw) > 0:
+			shares := false
+			for _, w := range fw {
+				if _, isC := w.Val.(*ssa.Const); isC {
+					shares = true
+				}
+				for loc := range locSet(p, w.Val) {
+					if callLocs[loc] {
+						shares = true
+					}
+				}
+			}
+			if !shares {
+				extra = append(extra, "field "+st.Field(i).Name())
+			}
+		case len(whole) > 0:
+			// copied as a whole: the field must itself be read for the call (or the whole value handed on)
+			if !callLocs[fmt.Sprintf("%p.%d", ssa.Value(al), i)] && !callLocs[fmt.Sprintf("%p.*", ssa.Value(al))] {
+				extra = append(extra, "field "+st.Field(i).Name())
+			}
+		}
+	}
+	return extra
 }
